@@ -29,11 +29,11 @@ def _setup():
 class _DtRec:
     """recorder view that qualifies every group with the dtype (units are split by dtype: keeps obligation names unique)"""
 
-    def __init__(self, rec, dtname):
-        self.rec, self.sfx = rec, "f32" if dtname == "float32" else "f64"
+    def __init__(self, rec, dtname, rnd=0):
+        self.rec, self.sfx, self.rnd = rec, "f32" if dtname == "float32" else "f64", (f"|round={rnd}" if rnd else "")
 
-    def check(self, group, *a, **k):
-        return self.rec.check(f"{group}[{self.sfx}]", *a, **k)
+    def check(self, group, label, *a, **k):
+        return self.rec.check(f"{group}[{self.sfx}]", label + self.rnd, *a, **k)
 
     def obligations(self):
         return self.rec.obligations()
@@ -177,13 +177,11 @@ def _build(torch, zoo, seed, dt, n, shape, kinds, jitter, hi):
     return torch.stack(mats).reshape(*shape, n, n)
 
 
-def rtc_explicit(dtname, tier):
+def _body_explicit(torch, zoo, rec, seed, dtname, tier):
     """jitter / max_tries passed explicitly"""
-    torch, zoo, rec, seed = _setup()
     from linear_operator.utils.cholesky import psd_safe_cholesky
 
     dt = getattr(torch, dtname)
-    rec = _DtRec(rec, dtname)
     sizes = [1, 2, 3, 6] if tier == "quick" else [1, 2, 3, 4, 6, 9, 17]
     # (jitter, scale of the spectrum): the jitter must be readable against eps * |A|
     confs = [(1e-4, 1.0), (1e-6, 1e-2)] if dt == torch.float32 else [(1e-4, 1.0), (1e-8, 1.0), (1e-6, 100.0)]
@@ -240,17 +238,15 @@ def rtc_explicit(dtname, tier):
     for kinds in (["need0"], ["pd"], ["pd", "need1"]):
         A = _build(torch, zoo, seed + 5, dt, 3, (len(kinds),), kinds, 1e-4, 1.0)
         _judge(torch, rec, "max_tries_zero", f"{dtname}|n=3|{','.join(kinds)}|max_tries=0", A, lambda: psd_safe_cholesky(A, jitter=1e-4, max_tries=0), 1e-4, 0, False)
-    return rec.obligations()
+    return None
 
 
-def rtc_settings(dtname, tier):
+def _body_settings(torch, zoo, rec, seed, dtname, tier):
     """jitter / max_tries taken from settings.cholesky_jitter (per dtype) / settings.cholesky_max_tries"""
-    torch, zoo, rec, seed = _setup()
     from linear_operator import settings
     from linear_operator.utils.cholesky import psd_safe_cholesky
 
     dt = getattr(torch, dtname)
-    rec = _DtRec(rec, dtname)
     other = 3.3e-3  # value put into the slot of the *other* dtype: must not be used
     sizes = [2, 5] if tier == "quick" else [1, 2, 3, 5, 8]
     hi_default = 1e-2 if dt == torch.float32 else 1.0
@@ -296,18 +292,16 @@ def rtc_settings(dtname, tier):
                     _judge(torch, rec, "settings_max_tries", lab, A, lambda: psd_safe_cholesky(A), 1e-4, mt, False, expect_kinds=kk)
         # after the contexts: defaults are back (guards the harness; C17 owns the property)
         rec.check("selfcheck/settings_restored", f"{dtname}|n={n}", settings.cholesky_jitter.value(dt) == default_j and settings.cholesky_max_tries.value() == 3, "settings leaked", nontrivial=False)
-    return rec.obligations()
+    return None
 
 
-def rtc_operator(dtname, tier):
+def _body_operator(torch, zoo, rec, seed, dtname, tier):
     """op.cholesky(upper) / torch.linalg.cholesky(op) on dense-backed PSD operators (generic LinearOperator._cholesky)"""
-    torch, zoo, rec, seed = _setup()
     import linear_operator  # noqa: F401
     from linear_operator import settings
     from linear_operator.operators import ConstantMulLinearOperator, DenseLinearOperator, SumLinearOperator
 
     dt = getattr(torch, dtname)
-    rec = _DtRec(rec, dtname)
     sizes = [1, 2, 3, 6] if tier == "quick" else [1, 2, 3, 4, 6, 9]
 
     def wrap(kind, A):
@@ -360,7 +354,28 @@ def rtc_operator(dtname, tier):
             A[1, n - 1, n - 1] = float("nan")
             op = DenseLinearOperator(A)
             _judge(torch, rec, "op_cholesky/dense", f"{dtname}|dense|n={n}|pd,nan", A, lambda: op.cholesky(), 1e-4, 3, False)
+    return None
+
+
+
+def _rounds(body, dtname, tier):
+    """quick: one pass with the base seed; thorough: the thorough-size family re-drawn with 4 seeds"""
+    torch, zoo, rec, seed = _setup()
+    for rnd in range(1 if tier == "quick" else 4):
+        body(torch, zoo, _DtRec(rec, dtname, rnd), seed + 1009 * rnd, dtname, tier)
     return rec.obligations()
+
+
+def rtc_explicit(dtname, tier):
+    return _rounds(_body_explicit, dtname, tier)
+
+
+def rtc_settings(dtname, tier):
+    return _rounds(_body_settings, dtname, tier)
+
+
+def rtc_operator(dtname, tier):
+    return _rounds(_body_operator, dtname, tier)
 
 
 def rtc_units(tier):
